@@ -199,7 +199,7 @@ theorem C16_partial (p : Project) (h : validateWith .intended p = validate p) :
     validate p = [] ↔ wellFormed .intended p = true := by
   rw [← h]; exact validateWith_nil_iff .intended p
 
-/-! ### the full-strength statement and its three counter-examples -/
+/-! ### the full-strength statement, its open counter-example and the two repaired ones -/
 
 /-- C16 at full strength, at one project: the validators AS THEY ARE decide the INTENDED judgement -/
 def C16_statement_at (p : Project) : Prop := validate p = [] ↔ wellFormed .intended p = true
@@ -237,7 +237,8 @@ def witnessNullableListVariable : Project :=
     decls := [homeDecl [⟨"ids", .list (.nonNull (.named "ID")), none⟩]
       [.linked ⟨none, "pets", [("ids", .var "ids")], []⟩ [.scalar ⟨none, "name", [], []⟩]]] }
 
-example : validate witnessLinkedMissing = [] := by decide
+example : validateWith .beforeFixes witnessLinkedMissing = [] := by decide
+example : validate witnessLinkedMissing = [.missingArgument] := by decide
 example : wellFormed .intended witnessLinkedMissing = false := by decide
 example : validateWith .intended witnessLinkedMissing = [.missingArgument] := by decide
 
@@ -245,20 +246,32 @@ example : validate witnessIdArgument = [] := by decide
 example : wellFormed .intended witnessIdArgument = false := by decide
 example : validateWith .intended witnessIdArgument = [.undefinedArgument] := by decide
 
-example : validate witnessNullableListVariable = [.variableTypeMismatch] := by decide
+example : validateWith .beforeFixes witnessNullableListVariable = [.variableTypeMismatch] := by decide
+example : validate witnessNullableListVariable = [] := by decide
 example : wellFormed .intended witnessNullableListVariable = true := by decide
 example : validateWith .intended witnessNullableListVariable = [] := by decide
 
-/-- accepted although a required argument is missing -/
-theorem C16_witness_linked_missing : ¬ C16_statement_at witnessLinkedMissing := by
-  unfold C16_statement_at; decide
-
-/-- accepted although the argument `id` is not defined -/
+/-- accepted although the argument `id` is not defined: the OPEN counter-example -/
 theorem C16_witness_id_argument : ¬ C16_statement_at witnessIdArgument := by
   unfold C16_statement_at; decide
 
-/-- rejected although well-formed -/
-theorem C16_witness_nullable_list_variable : ¬ C16_statement_at witnessNullableListVariable := by
+/-- before 8835cbc: accepted although a required argument is missing -/
+theorem C16_before_fix_linked_missing :
+    ¬ (validateWith .beforeFixes witnessLinkedMissing = [] ↔ wellFormed .intended witnessLinkedMissing = true) := by
+  decide
+
+/-- since 8835cbc the statement holds at this project -/
+theorem C16_fixed_witness_linked_missing : C16_statement_at witnessLinkedMissing := by
+  unfold C16_statement_at; decide
+
+/-- before 1645c28: rejected although well-formed -/
+theorem C16_before_fix_nullable_list_variable :
+    ¬ (validateWith .beforeFixes witnessNullableListVariable = [] ↔
+        wellFormed .intended witnessNullableListVariable = true) := by
+  decide
+
+/-- since 1645c28 the statement holds at this project -/
+theorem C16_fixed_witness_nullable_list_variable : C16_statement_at witnessNullableListVariable := by
   unfold C16_statement_at; decide
 
 /-! ### each rule has its diagnostic -/
@@ -552,5 +565,306 @@ theorem each_rule_duplicate_response_name (hd : DeclOf p parent vars top)
   apply (reach_sets hd hr).1
   rw [he]
   exact dup_of_split p ty (List.mem_append_right _ List.mem_cons_self) hn a []
+
+
+/-! ### a syntactic sufficient condition for `validateWith .intended p = validate p` -/
+
+/-- no `.list` that is not directly under `.nonNull` -/
+def guarded : TypeRef → Bool
+  | .named _ => true
+  | .list _ => false
+  | .nonNull (.named _) => true
+  | .nonNull (.list x) => guarded x
+  | .nonNull (.nonNull t) => guarded (.nonNull t)
+
+theorem varSat_indep (r1 r2 : Rules) (s t : TypeRef) (h : guarded t = true) :
+    varSat r1 s t = varSat r2 s t := by
+  fun_induction varSat r1 s t with
+  | case1 s t => simp [varSat]
+  | case2 s t => simp [varSat]
+  | case3 s x => simp [guarded] at h
+  | case4 y x ih => 
+    rw [varSat]; exact ih (by simpa [guarded] using h)
+  | case5 => simp [varSat]
+  | case6 => simp [varSat]
+
+/-- the fields of every input object type have guarded types -/
+def InputsGuarded (p : Project) : Prop :=
+  ∀ n fs, inputFields p n = some fs → ∀ d ∈ fs, guarded d.ty = true
+
+mutual
+theorem valueSat_indep (r1 r2 : Rules) (p : Project) (vars : List VarDef) (hi : InputsGuarded p) :
+    ∀ (v : Value) (t : TypeRef), guarded t = true → valueSat r1 p vars v t = valueSat r2 p vars v t
+  | .var x, t, h => by
+    rw [valueSat, valueSat]
+    cases vars.find? (·.name == x) with
+    | none => rfl
+    | some d => simp only [varSat_indep r1 r2 d.ty t h]
+  | .int _, t, _ => by rw [valueSat, valueSat]
+  | .bool _, t, _ => by rw [valueSat, valueSat]
+  | .str _, t, _ => by rw [valueSat, valueSat]
+  | .float _, t, _ => by rw [valueSat, valueSat]
+  | .enum _, t, _ => by rw [valueSat, valueSat]
+  | .null, t, _ => by rw [valueSat, valueSat]
+  | .list items, t, h => by
+    rw [valueSat, valueSat]; exact listSat_indep r1 r2 p vars hi items t h
+  | .object fs, t, h => by
+    have ih := objectSat_indep r1 r2 p vars hi fs fs
+    simp only [valueSat]
+    split
+    · exact ih _
+    · rw [ih]
+    · rfl
+theorem listSat_indep (r1 r2 : Rules) (p : Project) (vars : List VarDef) (hi : InputsGuarded p) :
+    ∀ (l : List Value) (t : TypeRef), guarded t = true → listSat r1 p vars l t = listSat r2 p vars l t
+  | [], t, _ => by rw [listSat, listSat]
+  | v :: rest, t, h => by
+    rw [listSat, listSat, valueSat_indep r1 r2 p vars hi v t h, listSat_indep r1 r2 p vars hi rest t h]
+theorem objectSat_indep (r1 r2 : Rules) (p : Project) (vars : List VarDef) (hi : InputsGuarded p) :
+    ∀ (l all : List (String × Value)) (n : String),
+      objectSat r1 p vars l all n = objectSat r2 p vars l all n
+  | [], all, n => by rw [objectSat, objectSat]
+  | (k, v) :: rest, all, n => by
+    rw [objectSat, objectSat]
+    cases hf : inputFields p n with
+    | none => rfl
+    | some defs =>
+      simp only
+      split
+      · rfl
+      · cases hd : defs.find? (·.name == k) with
+        | none => exact objectSat_indep r1 r2 p vars hi rest all n
+        | some d =>
+          have hg : guarded d.ty = true := hi n defs hf d (List.mem_of_find?_eq_some hd)
+          simp only [valueSat_indep r1 r2 p vars hi v d.ty hg, objectSat_indep r1 r2 p vars hi rest all n]
+end
+
+theorem flatMap_congr_mem {α β} {l : List α} {f g : α → List β} (h : ∀ a ∈ l, f a = g a) :
+    l.flatMap f = l.flatMap g := by
+  simp only [List.flatMap_def]; rw [List.map_congr_left h]
+
+theorem any_congr_mem {α} {l : List α} {f g : α → Bool} (h : ∀ a ∈ l, f a = g a) :
+    l.any f = l.any g := by
+  induction l with
+  | nil => rfl
+  | cons x rest ih =>
+    simp only [List.any_cons]
+    rw [h x List.mem_cons_self, ih fun a ha => h a (List.mem_cons_of_mem _ ha)]
+
+/-- an argument called `id` is declared -/
+def idOk (defs : List VarDef) (args : List (String × Value)) : Bool :=
+  args.all fun a => !(a.1 == "id") || defs.any (·.name == a.1)
+
+/-- under the three conditions `argImpl` does not depend on the rule set (nor on `canMiss`, when no
+required argument is missing) -/
+theorem argImpl_indep (r1 r2 : Rules) (p : Project) (defs vars : List VarDef) (c1 c2 : Bool)
+    (args : List (String × Value)) (hi : InputsGuarded p) (hg : ∀ d ∈ defs, guarded d.ty = true)
+    (hid : idOk defs args = true) (hc : c1 = c2 ∨ requiredB defs args = true) :
+    argImpl r1 p defs vars c1 args = argImpl r2 p defs vars c2 args := by
+  unfold argImpl
+  congr 1
+  · congr 1
+    · apply flatMap_congr_mem
+      intro d hd
+      show (match args.find? (·.1 == d.name) with | some (_, v) => _ | none => _)
+        = (match args.find? (·.1 == d.name) with | some (_, v) => _ | none => _)
+      generalize List.find? _ args = o
+      rcases o with _ | ⟨n, v⟩
+      · rfl
+      · simp only [valueSat_indep r1 r2 p vars hi v d.ty (hg d hd)]
+    · have : ∀ r : Rules, args.any (fun a => !(r.idArgExempt && a.1 == "id") && !defs.any (·.name == a.1))
+          = args.any (fun a => !defs.any (·.name == a.1)) := by
+        intro r
+        apply any_congr_mem
+        intro a ha
+        have := List.all_eq_true.mp hid a ha
+        revert this
+        cases r.idArgExempt <;> cases (a.1 == "id") <;> cases defs.any (·.name == a.1) <;> simp
+      rw [this r1, this r2]
+  · rcases hc with hc | hc
+    · rw [hc]
+    · have : defs.any (fun d => isRequiredArg d && !args.any (·.1 == d.name)) = false := by
+        rw [List.any_eq_false]
+        intro d hd
+        have := List.all_eq_true.mp hc d hd
+        revert this
+        cases isRequiredArg d <;> cases args.any (·.1 == d.name) <;> simp
+      rw [this]; simp
+
+mutual
+/-- neither of the two selection-level quirks occurs at this selection or below -/
+def quirkSel (p : Project) (ty : String) : Selection → Bool
+  | .scalar h =>
+    match lookup p ty h.name with
+    | none => true
+    | some sel => idOk sel.args h.args
+  | .linked h kids =>
+    match lookup p ty h.name with
+    | none => true
+    | some sel =>
+      idOk sel.args h.args && requiredB sel.args h.args
+        && (!sel.kind.isLinked || quirkSels p (sel.target.getD "") kids)
+def quirkSels (p : Project) (ty : String) : List Selection → Bool
+  | [] => true
+  | s :: rest => quirkSel p ty s && quirkSels p ty rest
+end
+
+/-- what `lookup` returns has guarded argument types -/
+def LookupGuarded (p : Project) : Prop :=
+  ∀ ty name sel, lookup p ty name = some sel → ∀ d ∈ sel.args, guarded d.ty = true
+
+mutual
+theorem argSel_indep (r1 r2 : Rules) (p : Project) (vars : List VarDef) (hi : InputsGuarded p)
+    (hl : LookupGuarded p) (ty : String) :
+    ∀ s : Selection, quirkSel p ty s = true → argSel r1 p vars ty s = argSel r2 p vars ty s
+  | .scalar h, hq => by
+    rw [argSel, argSel]
+    rw [quirkSel] at hq
+    cases hlk : lookup p ty h.name with
+    | none => rfl
+    | some sel =>
+      simp only [hlk] at hq ⊢
+      rw [argImpl_indep r1 r2 p sel.args vars _ _ h.args hi (hl _ _ _ hlk) hq (Or.inl rfl)]
+  | .linked h kids, hq => by
+    rw [argSel, argSel]
+    rw [quirkSel] at hq
+    cases hlk : lookup p ty h.name with
+    | none => rfl
+    | some sel =>
+      simp only [hlk, Bool.and_eq_true, Bool.or_eq_true, Bool.not_eq_true'] at hq ⊢
+      obtain ⟨⟨h1, h2⟩, h3⟩ := hq
+      cases hk : sel.kind.isLinked with
+      | false => rfl
+      | true =>
+        simp only [hk, Bool.true_eq_false, false_or] at h3
+        simp only [if_true]
+        rw [argImpl_indep r1 r2 p sel.args vars _ _ h.args hi (hl _ _ _ hlk) h1 (Or.inr h2),
+          argSels_indep r1 r2 p vars hi hl _ kids h3]
+theorem argSels_indep (r1 r2 : Rules) (p : Project) (vars : List VarDef) (hi : InputsGuarded p)
+    (hl : LookupGuarded p) (ty : String) :
+    ∀ l : List Selection, quirkSels p ty l = true → argSels r1 p vars ty l = argSels r2 p vars ty l
+  | [], _ => by rw [argSels, argSels]
+  | s :: rest, hq => by
+    rw [quirkSels, Bool.and_eq_true] at hq
+    rw [argSels, argSels, argSel_indep r1 r2 p vars hi hl ty s hq.1,
+      argSels_indep r1 r2 p vars hi hl ty rest hq.2]
+end
+
+/-- every argument type of the project — arguments of schema fields, fields of input objects, variable
+definitions of client fields / pointers — is guarded -/
+def listsGuarded (p : Project) : Bool :=
+  (p.schema.types.all fun t =>
+      (t.fields.all fun f => f.args.all fun a => guarded a.ty)
+        && (match t.kind with
+            | .input fs => fs.all fun a => guarded a.ty
+            | _ => true))
+    && p.decls.all fun fd => fd.2.vars.all fun v => guarded v.ty
+
+theorem inputsGuarded_of (p : Project) (h : listsGuarded p = true) : InputsGuarded p := by
+  intro n fs hf d hd
+  unfold listsGuarded at h
+  rw [Bool.and_eq_true, List.all_eq_true] at h
+  unfold inputFields at hf
+  split at hf
+  · rename_i nm desc fs' heq
+    simp only [Option.some.injEq] at hf
+    subst hf
+    have hm := List.mem_of_find?_eq_some heq
+    have := h.1 _ hm
+    simp only [Bool.and_eq_true] at this
+    exact List.all_eq_true.mp this.2 d hd
+  · cases hf
+
+theorem lookupGuarded_of (p : Project) (h : listsGuarded p = true) : LookupGuarded p := by
+  intro ty name sel hl d hd
+  unfold listsGuarded at h
+  rw [Bool.and_eq_true, List.all_eq_true, List.all_eq_true] at h
+  obtain ⟨hs, hdecl⟩ := h
+  have hfield : ∀ (t : TypeDef) (f : FieldDef), p.schema.get? ty = some t → t.field? name = some f →
+      ∀ d ∈ argDefsOf f, guarded d.ty = true := by
+    intro t f ht hf d hd
+    have htm : t ∈ p.schema.types := List.mem_of_find?_eq_some ht
+    have hfm : f ∈ t.fields := List.mem_of_find?_eq_some hf
+    have h1 := hs t htm
+    simp only [Bool.and_eq_true] at h1
+    have h2 := List.all_eq_true.mp h1.1 f hfm
+    unfold argDefsOf at hd
+    rw [List.mem_map] at hd
+    obtain ⟨a, ha, rfl⟩ := hd
+    exact List.all_eq_true.mp h2 a ha
+  have hvars : ∀ dc : Decl, p.decl? ty name = some dc → ∀ d ∈ dc.vars, guarded d.ty = true := by
+    intro dc hdc d hd
+    have hm : dc ∈ p.decls.map (·.2) := List.mem_of_find?_eq_some hdc
+    rw [List.mem_map] at hm
+    obtain ⟨fd, hfd, rfl⟩ := hm
+    exact List.all_eq_true.mp (hdecl fd hfd) d hd
+  unfold lookup at hl
+  split at hl
+  · cases hl
+  · rename_i t ht
+    split at hl
+    · cases hl
+    · split at hl
+      · rename_i f hf
+        split at hl <;> (simp only [Option.some.injEq] at hl; subst hl; exact hfield t f ht hf d hd)
+      · repeat' split at hl
+        all_goals first
+          | (simp only [Option.some.injEq] at hl; subst hl; simp at hd; done)
+          | (rename_i f hdc; simp only [Option.some.injEq] at hl; subst hl; exact hvars _ hdc d hd)
+          | (cases hl; done)
+
+/-- none of the three quirks can show: (1) no argument type contains a `.list` that is not directly
+under `.nonNull`; (2) no selection has an argument named `id` that its selectable does not declare;
+(3) no selection WITH a selection set lacks a required argument -/
+def quirkFree (p : Project) : Bool :=
+  listsGuarded p
+    && p.decls.all fun fd =>
+      match fd.2 with
+      | .clientField f => quirkSels p f.parent f.selections
+      | .clientPointer f => quirkSels p f.parent f.selections
+      | .entrypoint _ => true
+
+theorem quirkFree_validateWith (r1 r2 : Rules) (p : Project) (h : quirkFree p = true) :
+    validateWith r1 p = validateWith r2 p := by
+  unfold quirkFree at h
+  rw [Bool.and_eq_true, List.all_eq_true] at h
+  obtain ⟨hg, hq⟩ := h
+  have hi := inputsGuarded_of p hg
+  have hl := lookupGuarded_of p hg
+  unfold validateWith
+  apply flatMap_congr_mem
+  intro fd hfd
+  have := hq fd hfd
+  revert this
+  cases fd.2 with
+  | clientField f =>
+    intro hq; simp only at hq ⊢
+    unfold declDiags
+    rw [argSels_indep r1 r2 p f.vars hi hl f.parent f.selections hq]
+  | clientPointer f =>
+    intro hq; simp only at hq ⊢
+    unfold declDiags
+    rw [argSels_indep r1 r2 p f.vars hi hl f.parent f.selections hq]
+  | entrypoint _ => intro _; rfl
+
+/-- a SYNTACTIC sufficient condition for the hypothesis of `C16_partial` -/
+theorem quirkFree_validate (p : Project) (h : quirkFree p = true) :
+    validateWith .intended p = validate p :=
+  quirkFree_validateWith .intended .asImplemented p h
+
+/-- on quirk-free projects the validators as they are decide the intended judgement -/
+theorem C16_quirkFree (p : Project) (h : quirkFree p = true) : C16_statement_at p :=
+  C16_partial p (quirkFree_validate p h)
+
+example : quirkFree witnessLinkedMissing = false := by decide
+example : quirkFree witnessIdArgument = false := by decide
+example : quirkFree witnessNullableListVariable = false := by decide
+
+/-- `field Query.Home { pet(id: 1) { name } }` on `petSchema` -/
+def exampleQuirkFree : Project :=
+  { schema := petSchema, extensions := [], options := {}, extraFiles := [],
+    decls := [homeDecl [] [.linked ⟨none, "pet", [("id", .int 1)], []⟩ [.scalar ⟨none, "name", [], []⟩]]] }
+
+example : quirkFree exampleQuirkFree = true := by decide
 
 end IsoVerif.Core.Validate
